@@ -7,6 +7,8 @@ from ..core import holds, violation, unrecognised, Result, HOLDS
 ID = "C11"
 ANCHORS = 'tools.fimo.logaddexp2,tools.fimo._pwm_to_mapping'.split(",")
 MIN_INSTANCES = 6
+# rule families whose findings in this module are derived by an engine (not by comparing spellings): exempt from the rewrite gate
+SEMANTIC_RULES = {"R-FASTMATH", "R-SCRATCH", "STATE"}
 EXPLANATION = (
     "R-FASTMATH (contradiction rule): a function compiled with fastmath=True (or a flag set containing ninf/nnan) asserts "
     "'no infinities/NaNs'; a body that mentions float('inf'), -numpy.inf, math.inf, numpy.nan or isinf/isnan/isfinite asserts "
@@ -114,7 +116,7 @@ def run(repo, tier):
             out.append(unrecognised("LOGADD", fi, role, "no path returns an arithmetic expression of the operands"))
         elif bad or untested:
             out.append(violation("LOGADD", fi, role, "a path reaches the arithmetic with x = y = -inf (%s): vmin - vmax = -inf - (-inf) = NaN" % (
-                "both tests true" if bad else "operands never tested against -inf"), first_sub,
+                "both tests true" if bad else "operands never tested against -inf"), first_sub, semantic=True,
                 witness={"decisions": (bad or untested)[0]["decisions"]}))
         elif not both or any(p["outcome"] is None or "-inf" not in str(p["outcome"]) for p in both):
             out.append(unrecognised("LOGADD", fi, role, "no path takes both -inf tests / it does not return -inf: %s" % [p["outcome"] for p in both][:2]))
